@@ -1,0 +1,43 @@
+//go:build verif
+
+package flood
+
+import (
+	"sort"
+	"time"
+
+	"github.com/postalsys/muti-metroo/internal/identity"
+)
+
+// VerifSetSender replaces the peer sender (recording sender of the harness).
+func (f *Flooder) VerifSetSender(s PeerSender) { f.sender = s }
+
+// VerifCleanup runs one cache cleanup pass synchronously (the pass the
+// cleanup loop runs every SeenCacheTTL/2).
+func (f *Flooder) VerifCleanup() { f.cleanup() }
+
+// VerifSleepCmdEntry is a snapshot of one entry of the sleep command cache.
+type VerifSleepCmdEntry struct {
+	Origin    identity.AgentID
+	CommandID uint64
+	SeenAt    time.Time
+	SeenFrom  identity.AgentID
+}
+
+// VerifSleepCmdCache returns the sleep/wake command seen cache sorted by
+// (origin, command id).
+func (f *Flooder) VerifSleepCmdCache() []VerifSleepCmdEntry {
+	f.sleepCmdMu.RLock()
+	defer f.sleepCmdMu.RUnlock()
+	out := make([]VerifSleepCmdEntry, 0, len(f.sleepCmdSeenCache))
+	for k, e := range f.sleepCmdSeenCache {
+		out = append(out, VerifSleepCmdEntry{Origin: k.OriginAgent, CommandID: k.CommandID, SeenAt: e.SeenAt, SeenFrom: e.SeenFrom})
+	}
+	sort.Slice(out, func(i, j int) bool {
+		if out[i].Origin != out[j].Origin {
+			return string(out[i].Origin[:]) < string(out[j].Origin[:])
+		}
+		return out[i].CommandID < out[j].CommandID
+	})
+	return out
+}
